@@ -41,6 +41,8 @@ type Gen struct {
 	funcs []*FuncSpec
 	// scopes in use
 	scopes []string
+	// the value just written for the attribute being declared
+	lastExpr *Expr
 }
 
 func NewGen(seed uint64, stream uint64, p Profile) *Gen {
